@@ -88,10 +88,22 @@ func checkPathsCase(res *Result, pc *pathsCase, T string, idx int) {
 		p := atomsToPath(f, T)
 		_ = os.MkdirAll(filepath.Dir(p), 0o755)
 		content := "package p\n"
+		// the module directive is not always at the top of go.mod: a licence header of several KiB in some layouts
+		hdr := ""
+		if idx%3 == 1 {
+			hdr = strings.Repeat("// a line of the licence header that some projects put in front of everything\n", 80)
+		}
 		if strings.HasSuffix(p, "W2/go.mod") {
-			content = "module example.com/M2\n\ngo 1.20\n"
+			content = hdr + "module example.com/M2\n\ngo 1.20\n"
 		} else if strings.HasSuffix(p, "go.mod") {
-			content = "module example.com/M\n\ngo 1.20\n"
+			content = hdr + "module example.com/M\n\ngo 1.20\n"
+			if idx%3 == 2 {
+				// and a go.mod without a module directive further down (W/fa/go.mod): not a module root
+				q := filepath.Join(filepath.Dir(p), "fa", "go.mod")
+				_ = os.MkdirAll(filepath.Dir(q), 0o755)
+				_ = os.WriteFile(q, []byte("// placeholder\n\ngo 1.20\n"), 0o644)
+				made = append(made, q)
+			}
 		}
 		_ = os.WriteFile(p, []byte(content), 0o644)
 		made = append(made, p)
